@@ -22,7 +22,7 @@ static PANICKED: std::sync::atomic::AtomicBool = std::sync::atomic::AtomicBool::
 /// own; the gigabyte-sized junk/rest cases)
 fn fresh_thread_rerun(op: u32, line: &str) -> bool {
     match op {
-        50 | 51 | 34 | 35 => false,
+        50 | 51 | 34 | 35 | 43 | 44 => false,
         40 | 41 | 33 | 32 => line.len() % 4 == 0,
         _ => line.len() < 200_000,
     }
